@@ -619,6 +619,10 @@ impl Reader {
           "DataFrag {:?} from {:?} lifespan exceeded. duration={:?} elapsed={:?}",
           seq_num, writer_guid, lifespan.duration, elapsed
         );
+        // The whole sample is past its lifespan, and a retransmission would be
+        // just as old. Count its sequence number as not available, so that a
+        // Reliable stream does not wait for it forever.
+        self.skip_unusable_change(writer_guid, seq_num);
         return;
       }
     }
@@ -665,6 +669,12 @@ impl Reader {
         writer_seq_num,
       );
     } else {
+      if !self.is_frag_partially_received(writer_guid, writer_seq_num) {
+        // All the fragments have arrived (the assembly buffer is gone), but
+        // they did not make up a usable sample. A retransmission would be just
+        // the same, so treat it like an unusable DATA.
+        self.skip_unusable_change(writer_guid, writer_seq_num);
+      }
       self.garbage_collect_fragments();
     }
   }
